@@ -60,7 +60,7 @@ def gen(rng, tier):
     prims = list(PRIMS)
     alltypes = bn + prims
     npairs = 6000 if tier == "thorough" else 900
-    reps = 8 if tier == "thorough" else 2
+    reps = 12 if tier == "thorough" else 10
     pairs = set()
     # every ordered (source, target) pair in both tiers: a change may be keyed to one particular combination
     for s in alltypes:
